@@ -293,8 +293,11 @@ func (s *Schema) structType(t reflect.Type, p Params) M {
 // ---------------------------------------------------------------------------------------------------------------
 type Gen struct {
 	R        *rand.Rand
-	MaxList  int  // extra elements above the lower bound
-	MinList  int  // if > 0: lists near the top of the value (the protocol IE lists) get at least this many elements
+	MaxList  int // extra elements above the lower bound
+	MinList  int // if > 0: lists near the top of the value (the protocol IE lists) get at least this many elements
+	Full     int // 1: every protocol IE alternative of a list once, in declared order, every OPTIONAL present, CHOICE alternatives in rotation; 2: every OPTIONAL absent, lists at their lower bound
+	forceAlt int // alternative the next open type must take (Full mode)
+	rot      int
 	Rich     bool // prefer CHOICE alternatives with content (structures, lists) over empty extension containers and enumerations; use extension values of extensible INTEGERs
 	MaxStr   int
 	Depth    int
@@ -449,9 +452,52 @@ func (g *Gen) Fill(v reflect.Value, p Params, depth int) {
 		}
 		ep := p
 		ep.SizeExt, ep.SizeLB, ep.SizeUB = false, nil, nil
+		var alts []int // Full mode: a list of protocol IEs gets one element per alternative of its open type
+		hasOpen := false
+		if g.Full != 0 {
+			lo := 0
+			if p.SizeLB != nil {
+				lo = int(*p.SizeLB)
+			}
+			n = lo
+			if g.Full == 1 {
+				if et := t.Elem(); et.Kind() == reflect.Struct {
+					for i := 0; i < et.NumField(); i++ {
+						if Parse(et.Field(i).Tag.Get("aper")).OpenType && isChoiceLike(et.Field(i).Type) {
+							hasOpen = true
+							ot := et.Field(i).Type
+							for a := 1; a < ot.NumField(); a++ {
+								ft := ot.Field(a).Type
+								for ft.Kind() == reflect.Ptr {
+									ft = ft.Elem()
+								}
+								if ft.Kind() == reflect.Struct && (ft.NumField() == 0 || hasNoAlternatives(ft)) {
+									continue
+								}
+								alts = append(alts, a)
+							}
+						}
+					}
+				}
+				if len(alts) > 0 {
+					n = len(alts)
+				} else if hasOpen {
+					n = lo // a protocol IE list whose IE set is empty
+				} else if n < 2 && depth <= 7 {
+					n = 2
+				}
+				if p.SizeUB != nil && int64(n) > *p.SizeUB {
+					n = int(*p.SizeUB)
+				}
+			}
+		}
 		s := reflect.MakeSlice(t, n, n)
 		for i := 0; i < n; i++ {
+			if i < len(alts) {
+				g.forceAlt = alts[i]
+			}
 			g.Fill(s.Index(i), ep, depth+1)
+			g.forceAlt = 0
 		}
 		v.Set(s)
 	case reflect.Struct:
@@ -475,6 +521,16 @@ func (g *Gen) Fill(v reflect.Value, p Params, depth int) {
 			alt := 1 + g.R.Intn(t.NumField()-1)
 			if len(real) > 0 {
 				alt = real[g.R.Intn(len(real))]
+			}
+			if g.Full == 1 && len(real) > 0 {
+				if g.forceAlt > 0 && p.OpenType {
+					alt, g.forceAlt = g.forceAlt, 0
+				} else {
+					alt = real[g.rot%len(real)]
+					g.rot++
+				}
+				g.FillAlt(v, alt, depth)
+				return
 			}
 			if g.Rich {
 				var cands []int
@@ -510,7 +566,13 @@ func (g *Gen) Fill(v reflect.Value, p Params, depth int) {
 					base = base.Elem()
 				}
 				empty := base.Kind() == reflect.Struct && hasNoAlternatives(base)
-				if empty || g.R.Intn(2) == 0 || depth > 8 {
+				skip := g.R.Intn(2) == 0
+				if g.Full == 1 {
+					skip = false
+				} else if g.Full == 2 {
+					skip = true
+				}
+				if empty || skip || depth > 8 {
 					continue
 				}
 			}
